@@ -1,1 +1,1164 @@
-//! (stub — being implemented)
+//! `vh::pki` — X.509 hierarchy generator for the checks that need generated credentials
+//! (C05 trust decisions, C06 certificate profile, C36/C37 time-stamps and OCSP).
+//!
+//! Design: certificates are **assembled by hand in DER** (TBSCertificate written field by field) and
+//! signed with the `openssl` crate (the same vendored OpenSSL the SDK links). That gives full control
+//! over every field a profile rule talks about — version, unique ids, signature algorithm (incl. RSA-PSS
+//! parameters, SHA-1, MD5), extension presence / criticality / order — without depending on what
+//! `X509Builder` or the `openssl` CLI are willing to emit.
+//!
+//! Quick tour
+//! ```ignore
+//! use vh::pki::*;
+//! let now = now_epoch();
+//! // EE <- intermediate <- root, all P-256, conforming to the C2PA profile
+//! let chain = make_chain(&ChainSpec::simple(2, KeyKind::P256, KeyKind::P256, "case-1"), now).unwrap();
+//! chain.certs_pem();      // what the signer embeds (EE first, root NOT included unless asked)
+//! chain.root_pem();       // trust anchor
+//! chain.ee_key_pem();     // PKCS#8 private key of the EE
+//! let signer = chain.sdk_signer().unwrap();                 // c2pa::create_signer::from_keys
+//! let signer = PkiSigner::from_chain(&chain);               // own c2pa::Signer (stateful variants, TSA hook)
+//! // one certificate with arbitrary knobs
+//! let mut spec = CertSpec::ee("violating");
+//! spec.is_ca = Some(true);
+//! let cert_der = make_cert(&spec, &ee_key, Some(&issuer), now).unwrap();
+//! ```
+//!
+//! Everything that is random but irrelevant to a verdict (key material) comes from OpenSSL's RNG; every
+//! *decision* (which knob, which fault) must come from the caller (proptest / `vh::rng`).
+//!
+//! Not generated here: nothing listed in DESIGN §3.3 is missing — RSA-PSS certificate signatures, RSA-PSS
+//! SubjectPublicKeyInfo keys, issuer/subjectUniqueID, v1/v2, MD5/SHA-1 are all produced natively.
+//! `openssl_cli_verify` shells out to `/usr/bin/openssl verify` (3.0.x) as an independent path oracle.
+
+use std::{
+    collections::HashMap,
+    path::Path,
+    sync::{
+        atomic::{AtomicUsize, Ordering},
+        Mutex, OnceLock,
+    },
+};
+
+use openssl::{
+    ec::{EcGroup, EcKey},
+    ecdsa::EcdsaSig,
+    hash::MessageDigest,
+    nid::Nid,
+    pkey::{Id, PKey, Private},
+    pkey_ctx::PkeyCtx,
+    rsa::{Padding, Rsa},
+    sign::{RsaPssSaltlen, Signer as OsslSigner},
+};
+use serde::{Deserialize, Serialize};
+
+pub type PkiResult<T> = Result<T, String>;
+
+fn es<E: std::fmt::Display>(e: E) -> String {
+    e.to_string()
+}
+
+// =====================================================================================================
+// DER helpers
+// =====================================================================================================
+
+/// Minimal DER writer/reader (definite lengths only).
+pub mod der {
+    pub fn len(n: usize) -> Vec<u8> {
+        if n < 0x80 {
+            vec![n as u8]
+        } else {
+            let b = n.to_be_bytes();
+            let first = b.iter().position(|x| *x != 0).unwrap_or(b.len() - 1);
+            let mut v = vec![0x80 | (b.len() - first) as u8];
+            v.extend_from_slice(&b[first..]);
+            v
+        }
+    }
+    pub fn tlv(tag: u8, content: &[u8]) -> Vec<u8> {
+        let mut v = vec![tag];
+        v.extend(len(content.len()));
+        v.extend_from_slice(content);
+        v
+    }
+    pub fn seq(parts: &[Vec<u8>]) -> Vec<u8> {
+        tlv(0x30, &parts.concat())
+    }
+    pub fn set(parts: &[Vec<u8>]) -> Vec<u8> {
+        tlv(0x31, &parts.concat())
+    }
+    /// INTEGER from big-endian magnitude bytes (always non-negative).
+    pub fn int_bytes(be: &[u8]) -> Vec<u8> {
+        let mut b: Vec<u8> = be.iter().copied().skip_while(|x| *x == 0).collect();
+        if b.is_empty() {
+            b.push(0);
+        }
+        if b[0] & 0x80 != 0 {
+            b.insert(0, 0);
+        }
+        tlv(0x02, &b)
+    }
+    pub fn int_u64(v: u64) -> Vec<u8> {
+        int_bytes(&v.to_be_bytes())
+    }
+    /// OBJECT IDENTIFIER from dotted decimal (panics on malformed input: programmer error).
+    pub fn oid(dotted: &str) -> Vec<u8> {
+        let arcs: Vec<u64> = dotted.split('.').map(|a| a.trim().parse().expect("oid arc")).collect();
+        assert!(arcs.len() >= 2, "oid needs two arcs");
+        let mut body = vec![];
+        let mut push = |mut v: u64| {
+            let mut tmp = vec![(v & 0x7f) as u8];
+            v >>= 7;
+            while v > 0 {
+                tmp.push(0x80 | (v & 0x7f) as u8);
+                v >>= 7;
+            }
+            tmp.reverse();
+            body.extend(tmp);
+        };
+        push(arcs[0] * 40 + arcs[1]);
+        for a in &arcs[2..] {
+            push(*a);
+        }
+        tlv(0x06, &body)
+    }
+    pub fn null() -> Vec<u8> {
+        vec![0x05, 0x00]
+    }
+    pub fn boolean(b: bool) -> Vec<u8> {
+        vec![0x01, 0x01, if b { 0xff } else { 0x00 }]
+    }
+    pub fn octet(b: &[u8]) -> Vec<u8> {
+        tlv(0x04, b)
+    }
+    pub fn bit_string(b: &[u8], unused: u8) -> Vec<u8> {
+        let mut c = vec![unused];
+        c.extend_from_slice(b);
+        tlv(0x03, &c)
+    }
+    pub fn utf8(s: &str) -> Vec<u8> {
+        tlv(0x0c, s.as_bytes())
+    }
+    pub fn printable(s: &str) -> Vec<u8> {
+        tlv(0x13, s.as_bytes())
+    }
+    /// Context-specific tag `[n]`, constructed (EXPLICIT wrapper) or primitive (IMPLICIT over a primitive).
+    pub fn ctx(n: u8, constructed: bool, content: &[u8]) -> Vec<u8> {
+        tlv(0x80 | if constructed { 0x20 } else { 0 } | n, content)
+    }
+    /// Named-bit BIT STRING from a mask whose bit `i` (1 << i) is named bit `i` (DER: trailing zeros trimmed).
+    pub fn named_bits(mask: u16) -> Vec<u8> {
+        let mut bytes = [0u8; 2];
+        for i in 0..16 {
+            if mask & (1 << i) != 0 {
+                bytes[i / 8] |= 0x80 >> (i % 8);
+            }
+        }
+        let mut v: Vec<u8> = bytes.to_vec();
+        while v.last() == Some(&0) {
+            v.pop();
+        }
+        let unused = v.last().map(|b| b.trailing_zeros() as u8).unwrap_or(0);
+        bit_string(&v, unused)
+    }
+    fn civil(epoch: i64) -> (i64, u32, u32, u32, u32, u32) {
+        let days = epoch.div_euclid(86400);
+        let secs = epoch.rem_euclid(86400);
+        let z = days + 719468;
+        let era = z.div_euclid(146097);
+        let doe = z.rem_euclid(146097);
+        let yoe = (doe - doe / 1460 + doe / 36524 - doe / 146096) / 365;
+        let y = yoe + era * 400;
+        let doy = doe - (365 * yoe + yoe / 4 - yoe / 100);
+        let mp = (5 * doy + 2) / 153;
+        let d = (doy - (153 * mp + 2) / 5 + 1) as u32;
+        let m = if mp < 10 { mp + 3 } else { mp - 9 } as u32;
+        let y = if m <= 2 { y + 1 } else { y };
+        (y, m, d, (secs / 3600) as u32, ((secs % 3600) / 60) as u32, (secs % 60) as u32)
+    }
+    /// RFC 5280 `Time`: UTCTime through 2049, GeneralizedTime afterwards.
+    pub fn time(epoch: i64) -> Vec<u8> {
+        let (y, mo, d, h, mi, s) = civil(epoch);
+        if (1950..2050).contains(&y) {
+            tlv(0x17, format!("{:02}{:02}{:02}{:02}{:02}{:02}Z", y % 100, mo, d, h, mi, s).as_bytes())
+        } else {
+            generalized_time(epoch)
+        }
+    }
+    pub fn generalized_time(epoch: i64) -> Vec<u8> {
+        let (y, mo, d, h, mi, s) = civil(epoch);
+        tlv(0x18, format!("{:04}{:02}{:02}{:02}{:02}{:02}Z", y, mo, d, h, mi, s).as_bytes())
+    }
+    /// `YYYYMMDDHHMMSSZ` text (e.g. for `openssl ts`/`ocsp` index files).
+    pub fn time_text(epoch: i64) -> String {
+        let (y, mo, d, h, mi, s) = civil(epoch);
+        format!("{:04}{:02}{:02}{:02}{:02}{:02}Z", y, mo, d, h, mi, s)
+    }
+    /// One TLV: `(tag, content, rest)`; `None` on truncation / indefinite length.
+    pub fn read_tlv(input: &[u8]) -> Option<(u8, &[u8], &[u8])> {
+        if input.len() < 2 {
+            return None;
+        }
+        let tag = input[0];
+        let (l, hdr) = if input[1] < 0x80 {
+            (input[1] as usize, 2)
+        } else {
+            let n = (input[1] & 0x7f) as usize;
+            if n == 0 || n > 4 || input.len() < 2 + n {
+                return None;
+            }
+            let mut l = 0usize;
+            for b in &input[2..2 + n] {
+                l = (l << 8) | *b as usize;
+            }
+            (l, 2 + n)
+        };
+        if input.len() < hdr + l {
+            return None;
+        }
+        Some((tag, &input[hdr..hdr + l], &input[hdr + l..]))
+    }
+    /// Children of a constructed value (content bytes) as raw TLVs.
+    pub fn children(mut content: &[u8]) -> Vec<&[u8]> {
+        let mut v = vec![];
+        while !content.is_empty() {
+            match read_tlv(content) {
+                Some((_, c, rest)) => {
+                    let total = content.len() - rest.len();
+                    let _ = c;
+                    v.push(&content[..total]);
+                    content = rest;
+                }
+                None => break,
+            }
+        }
+        v
+    }
+}
+
+// =====================================================================================================
+// OIDs and key-usage bits
+// =====================================================================================================
+
+pub mod oids {
+    pub const EKU_EMAIL_PROTECTION: &str = "1.3.6.1.5.5.7.3.4";
+    pub const EKU_DOCUMENT_SIGNING: &str = "1.3.6.1.5.5.7.3.36";
+    pub const EKU_TIME_STAMPING: &str = "1.3.6.1.5.5.7.3.8";
+    pub const EKU_OCSP_SIGNING: &str = "1.3.6.1.5.5.7.3.9";
+    pub const EKU_SERVER_AUTH: &str = "1.3.6.1.5.5.7.3.1";
+    pub const EKU_CLIENT_AUTH: &str = "1.3.6.1.5.5.7.3.2";
+    pub const EKU_CODE_SIGNING: &str = "1.3.6.1.5.5.7.3.3";
+    pub const EKU_ANY: &str = "2.5.29.37.0";
+    pub const EKU_C2PA_SIGNING: &str = "1.3.6.1.4.1.62558.2.1";
+    pub const EKU_MS_C2PA_SIGNING: &str = "1.3.6.1.4.1.311.76.59.1.9";
+    /// A private-arc OID no default list knows (use it with `trust.trust_config`).
+    pub const EKU_CUSTOM: &str = "1.3.6.1.4.1.55555.7.1";
+
+    pub const EXT_BASIC_CONSTRAINTS: &str = "2.5.29.19";
+    pub const EXT_KEY_USAGE: &str = "2.5.29.15";
+    pub const EXT_EXT_KEY_USAGE: &str = "2.5.29.37";
+    pub const EXT_SKI: &str = "2.5.29.14";
+    pub const EXT_AKI: &str = "2.5.29.35";
+    pub const EXT_SAN: &str = "2.5.29.17";
+    pub const EXT_AIA: &str = "1.3.6.1.5.5.7.1.1";
+    pub const EXT_OCSP_NOCHECK: &str = "1.3.6.1.5.5.7.48.1.5";
+    /// Unknown private extension used for the "unhandled critical extension" rule.
+    pub const EXT_UNKNOWN: &str = "1.3.6.1.4.1.55555.99.1";
+}
+
+/// Key usage named bits (bit `i` of the mask = KeyUsage bit `i`).
+pub mod ku {
+    pub const DIGITAL_SIGNATURE: u16 = 1 << 0;
+    pub const NON_REPUDIATION: u16 = 1 << 1;
+    pub const KEY_ENCIPHERMENT: u16 = 1 << 2;
+    pub const DATA_ENCIPHERMENT: u16 = 1 << 3;
+    pub const KEY_AGREEMENT: u16 = 1 << 4;
+    pub const KEY_CERT_SIGN: u16 = 1 << 5;
+    pub const CRL_SIGN: u16 = 1 << 6;
+    pub const ENCIPHER_ONLY: u16 = 1 << 7;
+    pub const DECIPHER_ONLY: u16 = 1 << 8;
+}
+
+// =====================================================================================================
+// Keys
+// =====================================================================================================
+
+#[derive(Clone, Copy, Debug, PartialEq, Eq, Hash, Serialize, Deserialize, PartialOrd, Ord)]
+pub enum KeyKind {
+    /// rsaEncryption SPKI, 2048 bits
+    Rsa2048,
+    /// rsaEncryption SPKI, 1024 bits (below the C2PA minimum)
+    Rsa1024,
+    /// id-RSASSA-PSS SPKI (no parameter restrictions), 2048 bits — like the repository's psNNN fixtures
+    RsaPss2048,
+    /// id-RSASSA-PSS SPKI, 1024 bits
+    RsaPss1024,
+    P256,
+    P384,
+    P521,
+    /// not allowed by the C2PA profile
+    Secp256k1,
+    /// not allowed by the C2PA profile
+    P224,
+    Ed25519,
+}
+
+impl KeyKind {
+    pub const CONFORMING: [KeyKind; 6] =
+        [KeyKind::P256, KeyKind::P384, KeyKind::P521, KeyKind::Ed25519, KeyKind::Rsa2048, KeyKind::RsaPss2048];
+
+    pub fn name(self) -> &'static str {
+        match self {
+            KeyKind::Rsa2048 => "rsa2048",
+            KeyKind::Rsa1024 => "rsa1024",
+            KeyKind::RsaPss2048 => "rsapss2048",
+            KeyKind::RsaPss1024 => "rsapss1024",
+            KeyKind::P256 => "p256",
+            KeyKind::P384 => "p384",
+            KeyKind::P521 => "p521",
+            KeyKind::Secp256k1 => "secp256k1",
+            KeyKind::P224 => "p224",
+            KeyKind::Ed25519 => "ed25519",
+        }
+    }
+    pub fn is_rsa(self) -> bool {
+        matches!(self, KeyKind::Rsa2048 | KeyKind::Rsa1024 | KeyKind::RsaPss2048 | KeyKind::RsaPss1024)
+    }
+    pub fn is_rsa_pss_spki(self) -> bool {
+        matches!(self, KeyKind::RsaPss2048 | KeyKind::RsaPss1024)
+    }
+    pub fn is_ec(self) -> bool {
+        matches!(self, KeyKind::P256 | KeyKind::P384 | KeyKind::P521 | KeyKind::Secp256k1 | KeyKind::P224)
+    }
+    /// The COSE algorithm a signer with this key announces (secp256k1 / P-224 have none: ES256 is announced).
+    pub fn signing_alg(self) -> c2pa::SigningAlg {
+        use c2pa::SigningAlg::*;
+        match self {
+            KeyKind::P256 | KeyKind::Secp256k1 | KeyKind::P224 => Es256,
+            KeyKind::P384 => Es384,
+            KeyKind::P521 => Es512,
+            KeyKind::Ed25519 => Ed25519,
+            _ => Ps256,
+        }
+    }
+    /// Natural digest for certificate signatures made with a key of this kind.
+    pub fn natural_digest(self) -> SigDigest {
+        match self {
+            KeyKind::P384 => SigDigest::Sha384,
+            KeyKind::P521 => SigDigest::Sha512,
+            _ => SigDigest::Sha256,
+        }
+    }
+}
+
+/// Generate a fresh private key.
+pub fn gen_key(kind: KeyKind) -> PkiResult<PKey<Private>> {
+    let ec = |nid: Nid| -> PkiResult<PKey<Private>> {
+        let g = EcGroup::from_curve_name(nid).map_err(es)?;
+        PKey::from_ec_key(EcKey::generate(&g).map_err(es)?).map_err(es)
+    };
+    let pss = |bits: u32| -> PkiResult<PKey<Private>> {
+        let mut ctx = PkeyCtx::new_id(Id::RSA_PSS).map_err(es)?;
+        ctx.keygen_init().map_err(es)?;
+        ctx.set_rsa_keygen_bits(bits).map_err(es)?;
+        ctx.keygen().map_err(es)
+    };
+    match kind {
+        KeyKind::Rsa2048 => PKey::from_rsa(Rsa::generate(2048).map_err(es)?).map_err(es),
+        KeyKind::Rsa1024 => PKey::from_rsa(Rsa::generate(1024).map_err(es)?).map_err(es),
+        KeyKind::RsaPss2048 => pss(2048),
+        KeyKind::RsaPss1024 => pss(1024),
+        KeyKind::P256 => ec(Nid::X9_62_PRIME256V1),
+        KeyKind::P384 => ec(Nid::SECP384R1),
+        KeyKind::P521 => ec(Nid::SECP521R1),
+        KeyKind::Secp256k1 => ec(Nid::SECP256K1),
+        KeyKind::P224 => ec(Nid::SECP224R1),
+        KeyKind::Ed25519 => PKey::generate_ed25519().map_err(es),
+    }
+}
+
+static POOL: OnceLock<Mutex<HashMap<(KeyKind, usize), PKey<Private>>>> = OnceLock::new();
+
+/// Process-wide key cache: `(kind, slot)` always yields the same key within one process. RSA key
+/// generation costs 50–300 ms, so campaigns reuse a handful of slots (key material never decides a verdict).
+pub fn pool_key(kind: KeyKind, slot: usize) -> PkiResult<PKey<Private>> {
+    let pool = POOL.get_or_init(|| Mutex::new(HashMap::new()));
+    if let Some(k) = pool.lock().unwrap().get(&(kind, slot)) {
+        return Ok(k.clone());
+    }
+    let k = gen_key(kind)?;
+    let mut g = pool.lock().unwrap();
+    Ok(g.entry((kind, slot)).or_insert(k).clone())
+}
+
+/// PKCS#8 PEM of a private key.
+pub fn key_pem(key: &PKey<Private>) -> PkiResult<Vec<u8>> {
+    key.private_key_to_pem_pkcs8().map_err(es)
+}
+
+// =====================================================================================================
+// Certificate specification
+// =====================================================================================================
+
+#[derive(Clone, Copy, Debug, PartialEq, Eq, Hash, Serialize, Deserialize, PartialOrd, Ord)]
+pub enum SigDigest {
+    /// the issuer key's natural digest (`KeyKind::natural_digest`)
+    Auto,
+    Sha256,
+    Sha384,
+    Sha512,
+    Sha1,
+    Md5,
+}
+
+/// One extra extension, DER value given as hex (so that specs stay serialisable).
+#[derive(Clone, Debug, PartialEq, Eq, Hash, Serialize, Deserialize)]
+pub struct RawExt {
+    pub oid: String,
+    pub critical: bool,
+    /// content of the extnValue OCTET STRING, hex
+    pub value_hex: String,
+}
+
+/// Everything about one certificate except keys and issuer. All times are offsets in seconds relative to
+/// the `now` handed to [`make_cert`] / [`make_chain`].
+#[derive(Clone, Debug, PartialEq, Eq, Hash, Serialize, Deserialize)]
+pub struct CertSpec {
+    /// 1, 2 or 3 (X.509 version as people say it; DER value is version-1). 1 omits the `[0]` field.
+    pub version: u8,
+    /// `None` = no basicConstraints extension
+    pub is_ca: Option<bool>,
+    pub bc_critical: bool,
+    pub path_len: Option<u32>,
+    /// `None` = no keyUsage extension; mask over [`ku`]
+    pub key_usage: Option<u16>,
+    pub ku_critical: bool,
+    /// `None` = no EKU extension; dotted OIDs (see [`oids`])
+    pub eku: Option<Vec<String>>,
+    pub eku_critical: bool,
+    pub not_before_off: i64,
+    pub not_after_off: i64,
+    /// add an extension with an unknown OID marked critical
+    pub critical_unknown_ext: bool,
+    /// number of unknown *non-critical* extensions (benign variation)
+    pub noncritical_unknown_exts: u8,
+    /// authorityKeyIdentifier (keyid form = issuer's SKI value)
+    pub aki: bool,
+    pub ski: bool,
+    pub digest: SigDigest,
+    /// sign this certificate with RSASSA-PSS (only meaningful when the issuer key is RSA; forced for
+    /// id-RSASSA-PSS issuer keys)
+    pub pss: bool,
+    pub cn: String,
+    /// Organization attribute; the SDK needs one in the *signer* certificate (`issuer_org` of the report)
+    pub org: Option<String>,
+    /// serial number magnitude, hex (non-empty)
+    pub serial_hex: String,
+    /// issuerUniqueID `[1]` bit string content, hex (`None` = absent)
+    pub issuer_uid_hex: Option<String>,
+    /// subjectUniqueID `[2]`
+    pub subject_uid_hex: Option<String>,
+    /// further extensions appended verbatim
+    pub extra_exts: Vec<RawExt>,
+    /// omit the extensions field even if extensions are configured (pure v1/v2 shapes)
+    pub no_extensions: bool,
+}
+
+impl CertSpec {
+    /// End-entity certificate conforming to the C2PA signer profile.
+    pub fn ee(cn: &str) -> CertSpec {
+        CertSpec {
+            version: 3,
+            is_ca: Some(false),
+            bc_critical: true,
+            path_len: None,
+            key_usage: Some(ku::DIGITAL_SIGNATURE),
+            ku_critical: true,
+            eku: Some(vec![oids::EKU_EMAIL_PROTECTION.to_string()]),
+            eku_critical: false,
+            not_before_off: -86_400,
+            not_after_off: 365 * 86_400,
+            critical_unknown_ext: false,
+            noncritical_unknown_exts: 0,
+            aki: true,
+            ski: true,
+            digest: SigDigest::Auto,
+            pss: false,
+            cn: cn.to_string(),
+            org: Some("Verif Harness Signing".to_string()),
+            serial_hex: "1001".to_string(),
+            issuer_uid_hex: None,
+            subject_uid_hex: None,
+            extra_exts: vec![],
+            no_extensions: false,
+        }
+    }
+    /// CA certificate acceptable to OpenSSL's X509_STRICT (critical basicConstraints, keyCertSign|cRLSign, SKI, AKI).
+    pub fn ca(cn: &str) -> CertSpec {
+        CertSpec {
+            is_ca: Some(true),
+            key_usage: Some(ku::KEY_CERT_SIGN | ku::CRL_SIGN),
+            eku: None,
+            not_before_off: -30 * 86_400,
+            not_after_off: 3650 * 86_400,
+            org: Some("Verif Harness CA".to_string()),
+            serial_hex: "0a01".to_string(),
+            ..CertSpec::ee(cn)
+        }
+    }
+    /// Time-stamp authority end-entity (critical EKU timeStamping only, RFC 3161 §2.3).
+    pub fn tsa(cn: &str) -> CertSpec {
+        CertSpec {
+            eku: Some(vec![oids::EKU_TIME_STAMPING.to_string()]),
+            eku_critical: true,
+            org: Some("Verif Harness TSA".to_string()),
+            ..CertSpec::ee(cn)
+        }
+    }
+    /// Delegated OCSP responder end-entity (EKU OCSPSigning + id-pkix-ocsp-nocheck).
+    pub fn ocsp_responder(cn: &str) -> CertSpec {
+        CertSpec {
+            eku: Some(vec![oids::EKU_OCSP_SIGNING.to_string()]),
+            org: Some("Verif Harness OCSP".to_string()),
+            extra_exts: vec![RawExt {
+                oid: oids::EXT_OCSP_NOCHECK.to_string(),
+                critical: false,
+                value_hex: "0500".to_string(),
+            }],
+            ..CertSpec::ee(cn)
+        }
+    }
+    /// Add an authorityInfoAccess extension with an OCSP responder URL.
+    pub fn with_ocsp_url(mut self, url: &str) -> CertSpec {
+        let access = der::seq(&[der::oid("1.3.6.1.5.5.7.48.1"), der::ctx(6, false, url.as_bytes())]);
+        self.extra_exts.push(RawExt {
+            oid: oids::EXT_AIA.to_string(),
+            critical: false,
+            value_hex: hex::encode(der::seq(&[access])),
+        });
+        self
+    }
+}
+
+/// Issuer side of a certificate: name, signing key and key identifier.
+pub struct Issuer<'a> {
+    /// DER of the issuer's subject Name
+    pub name_der: Vec<u8>,
+    pub key: &'a PKey<Private>,
+    pub key_kind: KeyKind,
+    /// value placed in the subject's authorityKeyIdentifier
+    pub ski: Vec<u8>,
+}
+
+/// DER `Name` with C, O (optional) and CN.
+pub fn name_der(cn: &str, org: Option<&str>) -> Vec<u8> {
+    let atv = |oid: &str, v: Vec<u8>| der::set(&[der::seq(&[der::oid(oid), v])]);
+    let mut rdns = vec![atv("2.5.4.6", der::printable("US"))];
+    if let Some(o) = org {
+        rdns.push(atv("2.5.4.10", der::utf8(o)));
+    }
+    rdns.push(atv("2.5.4.3", der::utf8(cn)));
+    der::seq(&rdns)
+}
+
+/// Key identifier of a key: SHA-1 over its SubjectPublicKeyInfo (any stable octets are legitimate).
+pub fn key_id(key: &PKey<Private>) -> PkiResult<Vec<u8>> {
+    let spki = key.public_key_to_der().map_err(es)?;
+    Ok(openssl::hash::hash(MessageDigest::sha1(), &spki).map_err(es)?.to_vec())
+}
+
+fn md_of(d: SigDigest) -> MessageDigest {
+    match d {
+        SigDigest::Auto | SigDigest::Sha256 => MessageDigest::sha256(),
+        SigDigest::Sha384 => MessageDigest::sha384(),
+        SigDigest::Sha512 => MessageDigest::sha512(),
+        SigDigest::Sha1 => MessageDigest::sha1(),
+        SigDigest::Md5 => MessageDigest::md5(),
+    }
+}
+
+fn hash_oid(d: SigDigest) -> &'static str {
+    match d {
+        SigDigest::Auto | SigDigest::Sha256 => "2.16.840.1.101.3.4.2.1",
+        SigDigest::Sha384 => "2.16.840.1.101.3.4.2.2",
+        SigDigest::Sha512 => "2.16.840.1.101.3.4.2.3",
+        SigDigest::Sha1 => "1.3.14.3.2.26",
+        SigDigest::Md5 => "1.2.840.113549.2.5",
+    }
+}
+
+/// AlgorithmIdentifier DER for a certificate signature by a key of `kind`.
+pub fn sig_alg_id(kind: KeyKind, digest: SigDigest, pss: bool) -> Vec<u8> {
+    let digest = if digest == SigDigest::Auto { kind.natural_digest() } else { digest };
+    if kind == KeyKind::Ed25519 {
+        return der::seq(&[der::oid("1.3.101.112")]);
+    }
+    if kind.is_ec() {
+        let o = match digest {
+            SigDigest::Sha384 => "1.2.840.10045.4.3.3",
+            SigDigest::Sha512 => "1.2.840.10045.4.3.4",
+            SigDigest::Sha1 | SigDigest::Md5 => "1.2.840.10045.4.1",
+            _ => "1.2.840.10045.4.3.2",
+        };
+        return der::seq(&[der::oid(o)]);
+    }
+    if pss || kind.is_rsa_pss_spki() {
+        let h = der::seq(&[der::oid(hash_oid(digest)), der::null()]);
+        let mgf = der::seq(&[der::oid("1.2.840.113549.1.1.8"), h.clone()]);
+        let salt = md_of(digest).size() as u64;
+        let params = der::seq(&[
+            der::ctx(0, true, &h),
+            der::ctx(1, true, &mgf),
+            der::ctx(2, true, &der::int_u64(salt)),
+        ]);
+        return der::seq(&[der::oid("1.2.840.113549.1.1.10"), params]);
+    }
+    let o = match digest {
+        SigDigest::Sha384 => "1.2.840.113549.1.1.12",
+        SigDigest::Sha512 => "1.2.840.113549.1.1.13",
+        SigDigest::Sha1 => "1.2.840.113549.1.1.5",
+        SigDigest::Md5 => "1.2.840.113549.1.1.4",
+        _ => "1.2.840.113549.1.1.11",
+    };
+    der::seq(&[der::oid(o), der::null()])
+}
+
+/// Sign `tbs` the way a certificate / CRL / OCSP response signature is made by a key of `kind`
+/// (RSA PKCS#1 v1.5 or PSS, ECDSA in DER form, pure Ed25519).
+pub fn sign_x509(key: &PKey<Private>, kind: KeyKind, digest: SigDigest, pss: bool, tbs: &[u8]) -> PkiResult<Vec<u8>> {
+    let digest = if digest == SigDigest::Auto { kind.natural_digest() } else { digest };
+    if kind == KeyKind::Ed25519 {
+        let mut s = OsslSigner::new_without_digest(key).map_err(es)?;
+        return s.sign_oneshot_to_vec(tbs).map_err(es);
+    }
+    // ECDSA certificates cannot carry MD5; SHA-1 stands in (both are "unsupported" for the profile).
+    let md = if kind.is_ec() && digest == SigDigest::Md5 { MessageDigest::sha1() } else { md_of(digest) };
+    let mut s = OsslSigner::new(md, key).map_err(es)?;
+    if kind.is_rsa() && (pss || kind.is_rsa_pss_spki()) {
+        s.set_rsa_padding(Padding::PKCS1_PSS).map_err(es)?;
+        s.set_rsa_pss_saltlen(RsaPssSaltlen::DIGEST_LENGTH).map_err(es)?;
+        s.set_rsa_mgf1_md(md).map_err(es)?;
+    }
+    s.update(tbs).map_err(es)?;
+    s.sign_to_vec().map_err(es)
+}
+
+fn unhex(s: &str) -> PkiResult<Vec<u8>> {
+    hex::decode(s).map_err(|e| format!("bad hex {s:?}: {e}"))
+}
+
+/// Build one certificate. `issuer = None` makes it self-signed (issuer name = subject name, signed with
+/// `subject_key`, AKI = own SKI).
+pub fn make_cert(
+    spec: &CertSpec,
+    subject_key: &PKey<Private>,
+    subject_kind: KeyKind,
+    issuer: Option<&Issuer<'_>>,
+    now: i64,
+) -> PkiResult<Vec<u8>> {
+    let subject_name = name_der(&spec.cn, spec.org.as_deref());
+    let own_ski = key_id(subject_key)?;
+    let (issuer_name, issuer_key, issuer_kind, issuer_ski) = match issuer {
+        Some(i) => (i.name_der.clone(), i.key, i.key_kind, i.ski.clone()),
+        None => (subject_name.clone(), subject_key, subject_kind, own_ski.clone()),
+    };
+    let alg = sig_alg_id(issuer_kind, spec.digest, spec.pss);
+
+    let mut tbs: Vec<Vec<u8>> = vec![];
+    if spec.version != 1 {
+        tbs.push(der::ctx(0, true, &der::int_u64(spec.version.saturating_sub(1) as u64)));
+    }
+    tbs.push(der::int_bytes(&unhex(&spec.serial_hex)?));
+    tbs.push(alg.clone());
+    tbs.push(issuer_name);
+    tbs.push(der::seq(&[der::time(now + spec.not_before_off), der::time(now + spec.not_after_off)]));
+    tbs.push(subject_name);
+    tbs.push(subject_key.public_key_to_der().map_err(es)?);
+    if let Some(u) = &spec.issuer_uid_hex {
+        let mut c = vec![0u8];
+        c.extend(unhex(u)?);
+        tbs.push(der::ctx(1, false, &c));
+    }
+    if let Some(u) = &spec.subject_uid_hex {
+        let mut c = vec![0u8];
+        c.extend(unhex(u)?);
+        tbs.push(der::ctx(2, false, &c));
+    }
+
+    let ext = |oid: &str, critical: bool, value: &[u8]| {
+        let mut parts = vec![der::oid(oid)];
+        if critical {
+            parts.push(der::boolean(true));
+        }
+        parts.push(der::octet(value));
+        der::seq(&parts)
+    };
+    let mut exts: Vec<Vec<u8>> = vec![];
+    if let Some(ca) = spec.is_ca {
+        let mut parts = vec![];
+        if ca {
+            parts.push(der::boolean(true));
+        }
+        if let Some(pl) = spec.path_len {
+            parts.push(der::int_u64(pl as u64));
+        }
+        exts.push(ext(oids::EXT_BASIC_CONSTRAINTS, spec.bc_critical, &der::seq(&parts)));
+    }
+    if let Some(mask) = spec.key_usage {
+        exts.push(ext(oids::EXT_KEY_USAGE, spec.ku_critical, &der::named_bits(mask)));
+    }
+    if let Some(list) = &spec.eku {
+        let items: Vec<Vec<u8>> = list.iter().map(|o| der::oid(o)).collect();
+        exts.push(ext(oids::EXT_EXT_KEY_USAGE, spec.eku_critical, &der::seq(&items)));
+    }
+    if spec.ski {
+        exts.push(ext(oids::EXT_SKI, false, &der::octet(&own_ski)));
+    }
+    if spec.aki {
+        exts.push(ext(oids::EXT_AKI, false, &der::seq(&[der::ctx(0, false, &issuer_ski)])));
+    }
+    for i in 0..spec.noncritical_unknown_exts {
+        exts.push(ext(&format!("1.3.6.1.4.1.55555.98.{}", i + 1), false, &der::utf8("benign")));
+    }
+    if spec.critical_unknown_ext {
+        exts.push(ext(oids::EXT_UNKNOWN, true, &der::utf8("must-understand")));
+    }
+    for e in &spec.extra_exts {
+        exts.push(ext(&e.oid, e.critical, &unhex(&e.value_hex)?));
+    }
+    if !exts.is_empty() && !spec.no_extensions {
+        tbs.push(der::ctx(3, true, &der::seq(&exts)));
+    }
+    let tbs_der = der::seq(&tbs);
+    let sig = sign_x509(issuer_key, issuer_kind, spec.digest, spec.pss, &tbs_der)?;
+    Ok(der::seq(&[tbs_der, alg, der::bit_string(&sig, 0)]))
+}
+
+// =====================================================================================================
+// Hierarchies
+// =====================================================================================================
+
+/// Structural / per-certificate faults applied by [`make_chain`]. Levels: 0 = EE, 1 = the CA that issued
+/// the EE, …, `depth` = root.
+#[derive(Clone, Debug, PartialEq, Eq, Hash, Serialize, Deserialize)]
+pub enum Fault {
+    /// the certificate at this level is signed with an unrelated key of the right kind (names and AKI still
+    /// point at the nominal issuer)
+    WrongIssuerKey(usize),
+    /// drop the intermediate at this level (1..depth-1) from the supplied list
+    MissingIntermediate(usize),
+    /// supplied intermediates in reverse order
+    ReorderedIntermediates,
+    /// the intermediate at this level appears twice in the supplied list
+    DuplicatedIntermediate(usize),
+    /// the CA at this level carries basicConstraints CA:FALSE
+    IntermediateNotCa(usize),
+    /// the CA at this level expired a year ago (validity now-2y .. now-1y)
+    ExpiredIntermediate(usize),
+    /// an unrelated self-signed CA certificate is appended to the supplied list
+    UnrelatedExtra,
+}
+
+#[derive(Clone, Debug, PartialEq, Eq, Hash, Serialize, Deserialize)]
+pub struct ChainSpec {
+    /// number of certificates above the EE: 0 = self-signed EE, 1 = EE←root, 2 = EE←int←root, 3 = EE←int←int←root
+    pub depth: usize,
+    pub ee: CertSpec,
+    pub ee_key: KeyKind,
+    /// CA specs, closest to the EE first, root last (`len == depth`)
+    pub cas: Vec<CertSpec>,
+    pub ca_keys: Vec<KeyKind>,
+    pub faults: Vec<Fault>,
+    /// put the root into the supplied list as well (real signers usually do not)
+    pub include_root: bool,
+    /// first pool slot used for this chain's keys (levels use slot_base + level)
+    pub slot_base: usize,
+}
+
+impl ChainSpec {
+    /// Conforming hierarchy of the given depth; `tag` makes subject names unique.
+    pub fn simple(depth: usize, ee_key: KeyKind, ca_key: KeyKind, tag: &str) -> ChainSpec {
+        let mut cas = vec![];
+        for l in 1..=depth {
+            let mut s = CertSpec::ca(&if l == depth {
+                format!("Verif Root {tag}")
+            } else {
+                format!("Verif Intermediate {l} {tag}")
+            });
+            s.serial_hex = format!("0a{:02x}", l);
+            cas.push(s);
+        }
+        ChainSpec {
+            depth,
+            ee: CertSpec::ee(&format!("Verif Signer {tag}")),
+            ee_key,
+            cas,
+            ca_keys: vec![ca_key; depth],
+            faults: vec![],
+            include_root: false,
+            slot_base: 0,
+        }
+    }
+}
+
+/// A generated hierarchy.
+pub struct Chain {
+    /// pristine hierarchy, EE first, root last (`depth + 1` certificates)
+    pub all_der: Vec<Vec<u8>>,
+    /// what a signer embeds: EE first, then intermediates after structural faults (root only if asked)
+    pub supplied_der: Vec<Vec<u8>>,
+    /// private keys per level (0 = EE)
+    pub keys: Vec<PKey<Private>>,
+    pub key_kinds: Vec<KeyKind>,
+    /// unrelated certificates that were appended (`Fault::UnrelatedExtra`)
+    pub unrelated_der: Vec<Vec<u8>>,
+}
+
+pub fn pem_of(der: &[u8]) -> String {
+    use base64::Engine;
+    let b64 = base64::engine::general_purpose::STANDARD.encode(der);
+    let mut s = String::from("-----BEGIN CERTIFICATE-----\n");
+    for ch in b64.as_bytes().chunks(64) {
+        s.push_str(std::str::from_utf8(ch).unwrap());
+        s.push('\n');
+    }
+    s.push_str("-----END CERTIFICATE-----\n");
+    s
+}
+
+pub fn pem_bundle(ders: &[Vec<u8>]) -> String {
+    ders.iter().map(|d| pem_of(d)).collect()
+}
+
+/// The allow-list "hash line" of a certificate: base64(SHA-256(DER)) (44 characters).
+pub fn hash_line(der: &[u8]) -> String {
+    use base64::Engine;
+    use sha2::Digest;
+    base64::engine::general_purpose::STANDARD.encode(sha2::Sha256::digest(der))
+}
+
+impl Chain {
+    pub fn ee_der(&self) -> &[u8] {
+        &self.all_der[0]
+    }
+    pub fn root_der(&self) -> &[u8] {
+        self.all_der.last().unwrap()
+    }
+    /// supplied certificates (EE first) as one PEM bundle
+    pub fn certs_pem(&self) -> String {
+        pem_bundle(&self.supplied_der)
+    }
+    pub fn root_pem(&self) -> String {
+        pem_of(self.root_der())
+    }
+    pub fn ee_key_pem(&self) -> PkiResult<Vec<u8>> {
+        key_pem(&self.keys[0])
+    }
+    /// PEM of the certificate at `level` (0 = EE … depth = root)
+    pub fn level_pem(&self, level: usize) -> String {
+        pem_of(&self.all_der[level])
+    }
+    pub fn ee_alg(&self) -> c2pa::SigningAlg {
+        self.key_kinds[0].signing_alg()
+    }
+    /// Signer built by the SDK's own `create_signer::from_keys` (no TSA).
+    pub fn sdk_signer(&self) -> PkiResult<Box<dyn c2pa::Signer + Send + Sync>> {
+        c2pa::create_signer::from_keys(self.certs_pem().as_bytes(), &self.ee_key_pem()?, self.ee_alg(), None).map_err(es)
+    }
+    /// [`Issuer`] view of the certificate at `level` (to issue further certificates, e.g. a TSA or OCSP
+    /// responder below an intermediate).
+    pub fn issuer_at(&self, level: usize, spec: &CertSpec) -> PkiResult<Issuer<'_>> {
+        Ok(Issuer {
+            name_der: name_der(&spec.cn, spec.org.as_deref()),
+            key: &self.keys[level],
+            key_kind: self.key_kinds[level],
+            ski: key_id(&self.keys[level])?,
+        })
+    }
+}
+
+/// Generate a hierarchy. Keys come from the process-wide pool (`spec.slot_base + level`), so two chains with
+/// the same `slot_base` share keys (names and serials still differ).
+pub fn make_chain(spec: &ChainSpec, now: i64) -> PkiResult<Chain> {
+    if spec.cas.len() != spec.depth || spec.ca_keys.len() != spec.depth {
+        return Err("ChainSpec: cas/ca_keys length must equal depth".into());
+    }
+    let kinds: Vec<KeyKind> = std::iter::once(spec.ee_key).chain(spec.ca_keys.iter().copied()).collect();
+    let mut keys = vec![];
+    for (l, k) in kinds.iter().enumerate() {
+        keys.push(pool_key(*k, spec.slot_base + l)?);
+    }
+    let mut specs: Vec<CertSpec> = std::iter::once(spec.ee.clone()).chain(spec.cas.iter().cloned()).collect();
+    for f in &spec.faults {
+        match f {
+            Fault::IntermediateNotCa(l) if *l >= 1 && *l <= spec.depth => specs[*l].is_ca = Some(false),
+            Fault::ExpiredIntermediate(l) if *l >= 1 && *l <= spec.depth => {
+                specs[*l].not_before_off = -2 * 365 * 86_400;
+                specs[*l].not_after_off = -365 * 86_400;
+            }
+            _ => {}
+        }
+    }
+    let mut all: Vec<Vec<u8>> = vec![vec![]; spec.depth + 1];
+    for l in (0..=spec.depth).rev() {
+        let wrong = spec.faults.iter().any(|f| matches!(f, Fault::WrongIssuerKey(x) if *x == l));
+        let der = if l == spec.depth {
+            // top of the hierarchy: self-signed (depth 0: the EE itself)
+            if wrong {
+                let other = pool_key(kinds[l], spec.slot_base + 100 + l)?;
+                let iss = Issuer {
+                    name_der: name_der(&specs[l].cn, specs[l].org.as_deref()),
+                    key: &other,
+                    key_kind: kinds[l],
+                    ski: key_id(&keys[l])?,
+                };
+                make_cert(&specs[l], &keys[l], kinds[l], Some(&iss), now)?
+            } else {
+                make_cert(&specs[l], &keys[l], kinds[l], None, now)?
+            }
+        } else {
+            let up = l + 1;
+            let other;
+            let signing_key = if wrong {
+                other = pool_key(kinds[up], spec.slot_base + 100 + l)?;
+                &other
+            } else {
+                &keys[up]
+            };
+            let iss = Issuer {
+                name_der: name_der(&specs[up].cn, specs[up].org.as_deref()),
+                key: signing_key,
+                key_kind: kinds[up],
+                ski: key_id(&keys[up])?,
+            };
+            make_cert(&specs[l], &keys[l], kinds[l], Some(&iss), now)?
+        };
+        all[l] = der;
+    }
+    // supplied list
+    let mut inter: Vec<(usize, Vec<u8>)> = (1..spec.depth).map(|l| (l, all[l].clone())).collect();
+    let mut unrelated = vec![];
+    for f in &spec.faults {
+        match f {
+            Fault::MissingIntermediate(l) => inter.retain(|(x, _)| x != l),
+            Fault::DuplicatedIntermediate(l) => {
+                if let Some(p) = inter.iter().position(|(x, _)| x == l) {
+                    let d = inter[p].clone();
+                    inter.insert(p, d);
+                }
+            }
+            Fault::ReorderedIntermediates => inter.reverse(),
+            _ => {}
+        }
+    }
+    let mut supplied: Vec<Vec<u8>> = vec![all[0].clone()];
+    supplied.extend(inter.into_iter().map(|(_, d)| d));
+    if spec.include_root && spec.depth >= 1 {
+        supplied.push(all[spec.depth].clone());
+    }
+    if spec.faults.iter().any(|f| matches!(f, Fault::UnrelatedExtra)) {
+        let kind = spec.ca_keys.first().copied().unwrap_or(spec.ee_key);
+        let k = pool_key(kind, spec.slot_base + 200)?;
+        let mut s = CertSpec::ca(&format!("Unrelated CA for {}", spec.ee.cn));
+        s.serial_hex = "0bad".into();
+        let d = make_cert(&s, &k, kind, None, now)?;
+        supplied.push(d.clone());
+        unrelated.push(d);
+    }
+    Ok(Chain { all_der: all, supplied_der: supplied, keys, key_kinds: kinds, unrelated_der: unrelated })
+}
+
+// =====================================================================================================
+// COSE-level signing with generated keys
+// =====================================================================================================
+
+/// Raw signature in the form COSE wants for `alg`: ECDSA as fixed-width r‖s (IEEE P1363), RSASSA-PSS with
+/// MGF1 of the same digest and salt = digest length, pure Ed25519.
+pub fn cose_sign_raw(key: &PKey<Private>, kind: KeyKind, alg: c2pa::SigningAlg, data: &[u8]) -> PkiResult<Vec<u8>> {
+    use c2pa::SigningAlg::*;
+    let md = match alg {
+        Es256 | Ps256 => MessageDigest::sha256(),
+        Es384 | Ps384 => MessageDigest::sha384(),
+        Es512 | Ps512 => MessageDigest::sha512(),
+        Ed25519 => MessageDigest::null(),
+        other => return Err(format!("unsupported COSE algorithm {other}")),
+    };
+    if kind == KeyKind::Ed25519 {
+        let mut s = OsslSigner::new_without_digest(key).map_err(es)?;
+        return s.sign_oneshot_to_vec(data).map_err(es);
+    }
+    let mut s = OsslSigner::new(md, key).map_err(es)?;
+    if kind.is_rsa() {
+        s.set_rsa_padding(Padding::PKCS1_PSS).map_err(es)?;
+        s.set_rsa_pss_saltlen(RsaPssSaltlen::DIGEST_LENGTH).map_err(es)?;
+        s.set_rsa_mgf1_md(md).map_err(es)?;
+        s.update(data).map_err(es)?;
+        return s.sign_to_vec().map_err(es);
+    }
+    s.update(data).map_err(es)?;
+    let der_sig = s.sign_to_vec().map_err(es)?;
+    let sig = EcdsaSig::from_der(&der_sig).map_err(es)?;
+    let width = match kind {
+        KeyKind::P224 => 28,
+        KeyKind::P256 | KeyKind::Secp256k1 => 32,
+        KeyKind::P384 => 48,
+        _ => 66,
+    };
+    let mut out = sig.r().to_vec_padded(width).map_err(es)?;
+    out.extend(sig.s().to_vec_padded(width).map_err(es)?);
+    Ok(out)
+}
+
+/// Hook answering `Signer::send_timestamp_request` (argument: the RFC 3161 request message the SDK built).
+pub type TimestampHook = Box<dyn Fn(&[u8]) -> Option<Result<Vec<u8>, String>> + Send + Sync>;
+
+/// A `c2pa::Signer` over a generated key that does **no** validation of what it embeds.
+///
+/// `certs()` answers `first_certs` for the first `switch_after` calls and `later_certs` afterwards
+/// (`Builder::sign` asks twice: once for the pre-sign profile self-check, once to embed — see C06). With
+/// `switch_after = 0` or identical lists it is an ordinary signer. `calls()` reports how often `certs()` ran.
+pub struct PkiSigner {
+    pub key: PKey<Private>,
+    pub kind: KeyKind,
+    pub alg: c2pa::SigningAlg,
+    pub first_certs: Vec<Vec<u8>>,
+    pub later_certs: Vec<Vec<u8>>,
+    pub switch_after: usize,
+    pub calls: AtomicUsize,
+    pub sign_calls: AtomicUsize,
+    pub reserve: usize,
+    pub timestamper: Option<TimestampHook>,
+    pub ocsp: Option<Vec<u8>>,
+}
+
+impl PkiSigner {
+    pub fn new(key: PKey<Private>, kind: KeyKind, certs: Vec<Vec<u8>>) -> PkiSigner {
+        let reserve = 4096 + certs.iter().map(|c| c.len() + 16).sum::<usize>() + 1024;
+        PkiSigner {
+            key,
+            kind,
+            alg: kind.signing_alg(),
+            first_certs: certs.clone(),
+            later_certs: certs,
+            switch_after: 0,
+            calls: AtomicUsize::new(0),
+            sign_calls: AtomicUsize::new(0),
+            reserve,
+            timestamper: None,
+            ocsp: None,
+        }
+    }
+    pub fn from_chain(chain: &Chain) -> PkiSigner {
+        PkiSigner::new(chain.keys[0].clone(), chain.key_kinds[0], chain.supplied_der.clone())
+    }
+    /// Answer `first` for the first `switch_after` calls of `certs()`, the signer's own list afterwards.
+    pub fn with_first_answer(mut self, first: Vec<Vec<u8>>, switch_after: usize) -> PkiSigner {
+        let extra: usize = first.iter().map(|c| c.len() + 16).sum();
+        self.reserve += extra;
+        self.first_certs = first;
+        self.switch_after = switch_after;
+        self
+    }
+    pub fn with_timestamper(mut self, hook: TimestampHook) -> PkiSigner {
+        self.reserve += 8192;
+        self.timestamper = Some(hook);
+        self
+    }
+    pub fn with_ocsp(mut self, der: Vec<u8>) -> PkiSigner {
+        self.reserve += der.len() + 64;
+        self.ocsp = Some(der);
+        self
+    }
+    pub fn calls(&self) -> usize {
+        self.calls.load(Ordering::SeqCst)
+    }
+}
+
+impl c2pa::Signer for PkiSigner {
+    fn sign(&self, data: &[u8]) -> c2pa::Result<Vec<u8>> {
+        self.sign_calls.fetch_add(1, Ordering::SeqCst);
+        cose_sign_raw(&self.key, self.kind, self.alg, data).map_err(c2pa_err)
+    }
+    fn alg(&self) -> c2pa::SigningAlg {
+        self.alg
+    }
+    fn certs(&self) -> c2pa::Result<Vec<Vec<u8>>> {
+        let n = self.calls.fetch_add(1, Ordering::SeqCst);
+        Ok(if n < self.switch_after { self.first_certs.clone() } else { self.later_certs.clone() })
+    }
+    fn reserve_size(&self) -> usize {
+        self.reserve
+    }
+    fn send_timestamp_request(&self, message: &[u8]) -> Option<c2pa::Result<Vec<u8>>> {
+        match &self.timestamper {
+            Some(h) => h(message).map(|r| r.map_err(c2pa_err)),
+            None => None,
+        }
+    }
+    fn ocsp_val(&self) -> Option<Vec<u8>> {
+        self.ocsp.clone()
+    }
+}
+
+fn c2pa_err(s: String) -> c2pa::Error {
+    c2pa::Error::BadParam(s)
+}
+
+// =====================================================================================================
+// Independent oracle: the openssl CLI
+// =====================================================================================================
+
+pub const OPENSSL_CLI: &str = "/usr/bin/openssl";
+
+/// Epoch seconds of the wall clock (certificates are generated relative to it; keep margins of days).
+pub fn now_epoch() -> i64 {
+    std::time::SystemTime::now().duration_since(std::time::UNIX_EPOCH).map(|d| d.as_secs() as i64).unwrap_or(0)
+}
+
+/// `openssl verify -x509_strict -partial_chain [-attime t | -no_check_time] -trusted anchors -untrusted chain ee`
+/// inside `dir` (files `<tag>-*.pem` are written there). `Ok(true)` = the CLI built and verified a path.
+/// `Err` = the CLI could not be run.
+pub fn openssl_cli_verify(
+    dir: &Path,
+    tag: &str,
+    ee_der: &[u8],
+    untrusted: &[Vec<u8>],
+    anchors: &[Vec<u8>],
+    at_time: Option<i64>,
+) -> PkiResult<(bool, String)> {
+    std::fs::create_dir_all(dir).map_err(es)?;
+    let p = |n: &str| dir.join(format!("{tag}-{n}.pem"));
+    std::fs::write(p("ee"), pem_of(ee_der)).map_err(es)?;
+    std::fs::write(p("untrusted"), pem_bundle(untrusted)).map_err(es)?;
+    std::fs::write(p("anchors"), pem_bundle(anchors)).map_err(es)?;
+    let mut cmd = std::process::Command::new(OPENSSL_CLI);
+    cmd.arg("verify").arg("-x509_strict").arg("-partial_chain");
+    match at_time {
+        Some(t) => {
+            cmd.arg("-attime").arg(t.to_string());
+        }
+        None => {
+            cmd.arg("-no_check_time");
+        }
+    }
+    // no system default stores
+    cmd.arg("-no-CAfile").arg("-no-CApath").arg("-no-CAstore");
+    if !anchors.is_empty() {
+        cmd.arg("-trusted").arg(p("anchors"));
+    }
+    if !untrusted.is_empty() {
+        cmd.arg("-untrusted").arg(p("untrusted"));
+    }
+    cmd.arg(p("ee"));
+    cmd.env_remove("OPENSSL_CONF").env_remove("SSL_CERT_FILE").env_remove("SSL_CERT_DIR");
+    let out = cmd.output().map_err(|e| format!("cannot run {OPENSSL_CLI}: {e}"))?;
+    let text = format!(
+        "{}{}",
+        String::from_utf8_lossy(&out.stdout).trim(),
+        String::from_utf8_lossy(&out.stderr).trim()
+    );
+    for n in ["ee", "untrusted", "anchors"] {
+        let _ = std::fs::remove_file(p(n));
+    }
+    Ok((out.status.success(), text))
+}
